@@ -35,6 +35,7 @@ type Result struct {
 	Stopped      string                    `json:"stopped,omitempty"`
 	RunHashes    map[int64]uint64          `json:"run_hashes,omitempty"`
 	Scenarios    map[int64]json.RawMessage `json:"scenarios,omitempty"`
+	Sizes        map[int64]int             `json:"sizes,omitempty"`
 	WallS        float64                   `json:"wall_s"`
 	Error        string                    `json:"error,omitempty"`
 }
@@ -133,6 +134,38 @@ func WorkerMain(t *testing.T, worlds map[string]World, selftest func() error) {
 		for _, v := range vs {
 			res.Found = append(res.Found, Found{Violation: v, Seed: rf.Seed, Run: rf.Run, Scenario: rf.Scenario})
 		}
+		write()
+		return
+	case "cands":
+		// list the first-level shrink candidates of a scenario (used by the driver to shrink
+		// failures that kill the process: race reports, crashes)
+		raw, err := os.ReadFile(job.Replay)
+		if err != nil {
+			res.Error = err.Error()
+			write()
+			return
+		}
+		var rf ReplayFile
+		if err := json.Unmarshal(raw, &rf); err != nil {
+			res.Error = err.Error()
+			write()
+			return
+		}
+		sc, err := w.Decode(rf.Scenario)
+		if err != nil {
+			res.Error = err.Error()
+			write()
+			return
+		}
+		res.Scenarios = map[int64]json.RawMessage{}
+		n := int64(0)
+		sc.Shrinks(func(c Scenario) bool {
+			js, _ := json.Marshal(c)
+			res.Scenarios[n] = js
+			n++
+			return n >= 400 // stop enumerating
+		})
+		res.Sizes = map[int64]int{-1: sc.Size()}
 		write()
 		return
 	case "gen":
